@@ -184,10 +184,10 @@ func (c *Ctx) ruleLockDiscipline() {
 				}
 			}
 			type minfo struct {
-				f                         *Fn
-				reads, writes             bool
-				lock, rlock, deferUnlock  bool
-				callsUnlocked             []string
+				f                        *Fn
+				reads, writes            bool
+				lock, rlock, deferUnlock bool
+				callsUnlocked            []string
 			}
 			infos := map[string]*minfo{}
 			for i := 0; i < named.NumMethods(); i++ {
